@@ -164,7 +164,7 @@ def _pagerank(prog, rep):
     A, d = f.params[0], f.params[1]
     deg = [s for s in stmts if isinstance(s, ast.Assign) and m.match(s.value, 'np.sum(%s, axis=0)' % A)]
     D = norm(deg[0].targets[0]) if deg else 'deg'
-    guard = [s for s in stmts if m.match(s, '%s[%s == 0] = 1' % (D, D))]
+    guard = [s for s in stmts if m.match(s, '%s[%s == 0] = 1' % (D, D)) or m.match(s, '%s[np.logical_not(%s)] = 1' % (D, D))]
     inv = [s for s in stmts if isinstance(s, ast.Assign) and (m.match(s.value, 'np.diag(1 / %s)' % D) or m.match(s.value, 'np.diag(1.0 / %s)' % D))]
     rep.ob('P.degrees-are-column-sums', f, deg[0] if deg else 'deg = np.sum(A, axis=0)', len(deg) == 1, 'PageRank divides each column of A by its sum (out-going probability mass)', line=f.node.lineno)
     rep.ob('P.zero-degrees-replaced-before-inversion', f, guard[0] if guard else '%s[%s == 0] = 1' % (D, D),
